@@ -311,6 +311,8 @@ func (m *Machine) zero(t types.Type) Val {
 			return Opaque{Name: "float"}
 		case types.UntypedNil:
 			return Ptr{}
+		case types.Invalid:
+			return nil
 		}
 		panic("zero: basic " + u.String())
 	case *types.Pointer:
